@@ -15,7 +15,8 @@ DEFAULT_IGNORED = ('before_stop', 'after_stop', 'before_signal',
 def effective(outcome, flag, name=None):
     if outcome == 'true':
         return True
-    if outcome == 'false':
+    if outcome in ('false', 'none'):
+        # (no verdict is not "true": the flag is about exceptions)
         return False
     return bool(flag) or name in DEFAULT_IGNORED      # raise -> flag
 
@@ -276,6 +277,7 @@ class C14(Prop):
             'before_stop/after_stop assignments under stop and restart; '
             'before_signal/after_signal under signal (several signals incl. '
             'SIGKILL), kill and stop, the latter two also with stop_children; '
+            'hooks that answer None (no verdict: false); '
             'every start hook replaced at run time by '
             'a set request (6 old x 6 new outcome / flag pairs); judged against a reference model of '
             'the documented gating. random part: per-call varying hook '
@@ -318,6 +320,24 @@ class C14(Prop):
                         'hooks': {hook: (out, INI_FLAGS[flag])},
                         'ini_flags': {hook: flag}, 'beh': 'obedient',
                         'np': 2, 'trigger': 'start'}})
+        # a hook that answers nothing (no return statement): that is not
+        # "true", whatever the ignore-failure flag says (it is about
+        # exceptions)
+        for hook in START_HOOKS:
+            for flag in (False, True):
+                for np_ in (1, 2):
+                    cases.append({'c14': {
+                        'kind': 'start', 'hooks': {hook: ('none', flag)},
+                        'beh': 'obedient', 'np': np_, 'trigger': 'start',
+                        'none': True}})
+        for cmd, sg in (('signal', 15), ('signal', 10), ('kill', None),
+                        ('stop', None)):
+            for beh in ('obedient', 'stubborn'):
+                cases.append({'c14': {
+                    'kind': 'signal', 'hooks': {'before_signal':
+                                                ('none', False)},
+                    'beh': beh, 'np': 2, 'cmd': cmd, 'signum': sg,
+                    'none': True}})
         # a hook replaced at run time by a set request: outcome and flag of
         # the new one count, whatever the old one's were
         for hook in START_HOOKS:
@@ -366,6 +386,7 @@ class C14(Prop):
             cases = [c for c in cases if rng.random() < 0.1 or
                      c['c14'].get('np') == 0 or c['c14'].get('ini') or
                      c['c14'].get('stop_children') or
+                     c['c14'].get('none') or
                      (c['c14'].get('rehook') and list(
                          c['c14']['rehook'].values())[0][0] == 'raise')]
         return cases
